@@ -14,11 +14,17 @@ import (
 type CapacityOracle struct {
 	BaseOracle
 	prop       string // "C01" or "C02"
+	as         string // report violations under this property id instead (C12 conservation)
 	prevExcess map[string]float64
 	prevGroups map[string]map[string]bool // node -> groups known after the previous step
 }
 
-func (o *CapacityOracle) Prop() string { return o.prop }
+func (o *CapacityOracle) Prop() string {
+	if o.as != "" {
+		return o.as
+	}
+	return o.prop
+}
 
 func (o *CapacityOracle) grew(key string, excess float64) bool {
 	if o.prevExcess == nil {
@@ -68,10 +74,10 @@ func (o *CapacityOracle) AfterOp(r *Run, op Op) {
 			mem := alloc.Memory().Value()
 			pods := alloc.Pods().Value()
 			if ex := float64(oc.CPUm - cpu); o.grew(name+"/cpu", ex) && ex > 0 {
-				r.Fail("C01", "cpu", "node %s cpu %dm > allocatable %dm after op %v; pods=%v", name, oc.CPUm, cpu, op, oc.Members)
+				r.Fail(o.Prop(), "cpu", "node %s cpu %dm > allocatable %dm after op %v; pods=%v", name, oc.CPUm, cpu, op, oc.Members)
 			}
 			if ex := float64(oc.MemB - mem); o.grew(name+"/mem", ex) && ex > 0 {
-				r.Fail("C01", "memory", "node %s memory %d > allocatable %d after op %v; pods=%v", name, oc.MemB, mem, op, oc.Members)
+				r.Fail(o.Prop(), "memory", "node %s memory %d > allocatable %d after op %v; pods=%v", name, oc.MemB, mem, op, oc.Members)
 			}
 			if ex := float64(oc.Pods - pods); o.grew(name+"/pods", ex) && ex > 0 {
 				// attribute: is the excess explained by the pod slots of reservation pods of GPU groups
@@ -86,24 +92,24 @@ func (o *CapacityOracle) AfterOp(r *Run, op Op) {
 				if (op.Kind == "cycle" && newGroups > 0 && int(ex) <= newGroups) || (pendingRes > 0 && int(ex) <= pendingRes) {
 					rule = "podslots_reservation"
 				}
-				r.Fail("C01", rule, "node %s pod slots %d > allocatable %d after op %v; pods=%v groups=%d new_groups_this_cycle=%d binds_this_cycle=%d terminating=%d",
+				r.Fail(o.Prop(), rule, "node %s pod slots %d > allocatable %d after op %v; pods=%v groups=%d new_groups_this_cycle=%d binds_this_cycle=%d terminating=%d",
 					name, oc.Pods, pods, op, oc.Members, len(oc.Groups), newGroups, cycleBinds[name], terminating)
 			}
 			gpus := nodeGPUCount(oc.Node)
 			if ex := float64(oc.GPUs + int64(len(oc.Groups)) - gpus); o.grew(name+"/gpus", ex) && ex > 0 {
-				r.Fail("C01", "gpus", "node %s whole GPUs %d + shared devices %d > GPU count %d after op %v; pods=%v", name, oc.GPUs, len(oc.Groups), gpus, op, oc.Members)
+				r.Fail(o.Prop(), "gpus", "node %s whole GPUs %d + shared devices %d > GPU count %d after op %v; pods=%v", name, oc.GPUs, len(oc.Groups), gpus, op, oc.Members)
 			}
 			for _, k := range sortedKeys(oc.Ext) {
 				q := alloc[corev1.ResourceName(k)]
 				if ex := float64(oc.Ext[k] - q.Value()); o.grew(name+"/"+k, ex) && ex > 0 {
-					r.Fail("C01", "extended", "node %s %s %d > allocatable %d after op %v", name, k, oc.Ext[k], q.Value(), op)
+					r.Fail(o.Prop(), "extended", "node %s %s %d > allocatable %d after op %v", name, k, oc.Ext[k], q.Value(), op)
 				}
 			}
 		}
 		if o.prop == "C02" {
 			gpus := nodeGPUCount(oc.Node)
 			if ex := float64(oc.GPUs + int64(len(oc.Groups)) - gpus); o.grew(name+"/devices", ex) && ex > 0 {
-				r.Fail("C02", "devices", "node %s whole GPUs %d + shared devices %d > GPU count %d after op %v; pods=%v", name, oc.GPUs, len(oc.Groups), gpus, op, oc.Members)
+				r.Fail(o.Prop(), "devices", "node %s whole GPUs %d + shared devices %d > GPU count %d after op %v; pods=%v", name, oc.GPUs, len(oc.Groups), gpus, op, oc.Members)
 			}
 			gm, hasMem := nodeGPUMem(oc.Node)
 			for _, g := range sortedKeys(oc.Groups) {
@@ -113,11 +119,11 @@ func (o *CapacityOracle) AfterOp(r *Run, op Op) {
 				}
 				if hasMem {
 					if ex := grp.MemMi - float64(gm); o.grew(name+"/gm/"+g, ex) && !almostLE(grp.MemMi, float64(gm)) {
-						r.Fail("C02", "group_memory", "node %s group %s memory %.1f > device memory %d; sharers=%v after op %v", name, g, grp.MemMi, gm, grp.Sharers, op)
+						r.Fail(o.Prop(), "group_memory", "node %s group %s memory %.1f > device memory %d; sharers=%v after op %v", name, g, grp.MemMi, gm, grp.Sharers, op)
 					}
 				}
 				if ex := grp.Portion - 1.0; o.grew(name+"/gp/"+g, ex) && !almostLE(grp.Portion, 1.0) {
-					r.Fail("C02", "group_portion", "node %s group %s portions %.4f > 1; sharers=%v after op %v", name, g, grp.Portion, grp.Sharers, op)
+					r.Fail(o.Prop(), "group_portion", "node %s group %s portions %.4f > 1; sharers=%v after op %v", name, g, grp.Portion, grp.Sharers, op)
 				}
 			}
 		}
@@ -152,12 +158,12 @@ func (o *CapacityOracle) AfterOp(r *Run, op Op) {
 			seen := map[string]bool{}
 			for _, g := range groups {
 				if seen[g] {
-					r.Fail("C02", "distinct_devices", "pod %s attached twice to group %s", p.Name, g)
+					r.Fail(o.Prop(), "distinct_devices", "pod %s attached twice to group %s", p.Name, g)
 				}
 				seen[g] = true
 			}
 			if int64(len(groups)) != d.Devices {
-				r.Fail("C02", "device_count", "pod %s asks %d shared devices but is attached to %d groups %v", p.Name, d.Devices, len(groups), groups)
+				r.Fail(o.Prop(), "device_count", "pod %s asks %d shared devices but is attached to %d groups %v", p.Name, d.Devices, len(groups), groups)
 			}
 		}
 	}
